@@ -5,10 +5,12 @@ import "vpengine/exec"
 func init() {
 	oracle := "reference model harness/datamatrix/oracle_dm.go written from ISO/IEC 16022 (size table, ASCII encodation decoder, 253-state padding, RS over GF(256)/0x12D, block interleave, Annex F placement, finder/clock track), validated natively against 762 library symbols of all 24 sizes"
 	rsStub := "(*ReedSolomonEncoder).Encode replaced by the reference remainder (assume side); guarantee side: RS-enc-dm obligations of C17"
-	rs := func(in *exec.Instance, tier string) { in.Redirect = map[string]string{rsEncode: "utils:VPRSEncodeSummary"} }
+	rs := func(in *exec.Instance, tier string) {
+		in.Redirect = map[string]string{rsEncode: "utils:VPRSEncodeSummary"}
+	}
 	reg(&Oblig{ID: "DM-sizes", Pkg: "datamatrix", Func: "VP_DM_sizes", Props: []string{"C02", "C12"}, Desc: "the size table equals the 24 square ECC 200 symbols of ISO/IEC 16022 (data / error codewords, regions, blocks)",
 		Real: []string{"datamatrix.codeSizes", "(*dmCodeSize).DataCodewords/RegionRows/RegionColumns"}, Stubs: []string{oracle}, Bound: "all 24 rows (concrete)"})
-	reg(&Oblig{ID: "DM-A", Pkg: "datamatrix", Func: "VP_DM_text", Props: []string{"C02", "C10"}, Desc: "ASCII encodation of n symbolic bytes decodes (characters, digit pairs, upper shift) to exactly the bytes",
+	reg(&Oblig{ID: "DM-A", Pkg: "datamatrix", Func: "VP_DM_text", Props: []string{"C02", "C10", "C13"}, Desc: "ASCII encodation of n symbolic bytes decodes (characters, digit pairs, upper shift) to exactly the bytes",
 		Real: []string{"datamatrix.encodeText"}, Stubs: []string{oracle}, Bound: "n <= 4 fully symbolic bytes quick, n <= 6 thorough",
 		Configs: tiered(one("n", 0, 1, 2, 3, 4), one("n", 0, 1, 2, 3, 4, 5, 6))})
 	reg(&Oblig{ID: "DM-pad", Pkg: "datamatrix", Func: "VP_DM_pad", Props: []string{"C02"}, Desc: "addPadding: 129 then 253-state randomised pads at their 1-based positions, for every data length below the capacity",
@@ -16,8 +18,27 @@ func init() {
 		Configs: tiered(one("cap", 3, 5, 8, 12, 18, 22, 30, 36, 44, 204), one("cap", 3, 5, 8, 12, 18, 22, 30, 36, 44, 62, 86, 114, 144, 174, 204, 280, 368, 456, 576, 696, 816, 1050, 1304, 1558))})
 	reg(&Oblig{ID: "DM-B", Pkg: "datamatrix", Func: "VP_DM_ecc", Props: []string{"C02", "C12"}, Desc: "calcECC for symbolic data codewords: data kept, check codewords of block b interleaved at data+b+k*blocks, each block a Reed-Solomon codeword, ECC 200 count",
 		Real: []string{"(*datamatrix.errorCorrection).calcECC", "(*dmCodeSize).DataCodewordsForBlock", "(*dmCodeSize).ErrorCorrectionCodewordsPerBlock"}, Stubs: []string{oracle, rsStub},
-		Bound: "all data codewords symbolic; sizes 10..26, 32, 52 (2 blocks), 72 (4 blocks) quick; all 24 sizes incl. 144x144 (10 blocks, 156/155 split) thorough",
-		Configs: tiered(one("size", 0, 1, 2, 3, 4, 5, 6, 7, 8, 9, 14, 16), one("size", rng(0, 23)...)), Tune: rs})
+		Bound:   "all data codewords symbolic for sizes 10..26, 32, 52 (2 blocks), 72 (4 blocks) quick, more sizes up to 88 thorough; sizes 96, 120, 132 and 144x144 (10 blocks, 156/155 split) with every 101st (thorough also 37th) data codeword symbolic and the others fixed",
+		Configs: func(tier string, seed int64) []map[string]int {
+			var out []map[string]int
+			for _, sz := range []int{0, 1, 2, 3, 4, 5, 6, 7, 8, 9, 14, 16} {
+				out = append(out, map[string]int{"size": sz, "stride": 1})
+			}
+			// the big multi-block sizes (incl. 144x144 with its 156/155 split) with a sparse symbolic set
+			for _, sz := range []int{19, 21, 22, 23} {
+				out = append(out, map[string]int{"size": sz, "stride": 101})
+			}
+			// 144x144 once more with a single symbolic codeword: a wrong block then shows as a concrete
+			// mismatch instead of a satisfiable query over a very large term
+			out = append(out, map[string]int{"size": 23, "stride": 2000})
+			if tier == "thorough" {
+				for _, sz := range []int{10, 11, 12, 13, 15, 17, 18} {
+					out = append(out, map[string]int{"size": sz, "stride": 1})
+				}
+				out = append(out, map[string]int{"size": 20, "stride": 101}, map[string]int{"size": 23, "stride": 37})
+			}
+			return out
+		}, Tune: rs})
 	reg(&Oblig{ID: "DM-C", Pkg: "datamatrix", Func: "VP_DM_render", Props: []string{"C02", "C11"}, Desc: "render for symbolic codewords: every module equals the ISO layout (finder L and clock track per region, Annex F placement incl. corner cases, fixed lower-right pattern); pixel colours; bounds",
 		Real: []string{"datamatrix.render", "datamatrix.newCodeLayout", "(*codeLayout).SetValues/SetSimple/Corner1..4/Set/Occupied/Merge", "(*datamatrixCode).get/set/At/Bounds"}, Stubs: []string{oracle},
 		Bound: "all codewords symbolic, all 24 sizes in both tiers", Configs: func(string, int64) []map[string]int { return one("size", rng(0, 23)...) }})
